@@ -20,6 +20,8 @@ pub enum Step {
     Gone,
     Bookmark,
     ListFail,
+    /// thousands of metadata-only updates of object n in a row, ending in description o
+    Churn(String, Value),
 }
 
 impl Step {
@@ -34,6 +36,7 @@ impl Step {
             "gone" => Step::Gone,
             "bookmark" => Step::Bookmark,
             "listfail" => Step::ListFail,
+            "churn" => Step::Churn(n, v["o"].clone()),
             other => panic!("unknown step kind {other}"),
         }
     }
@@ -115,7 +118,7 @@ impl Mock {
         let l = TcpListener::bind("127.0.0.1:0").await.expect("bind loopback");
         let port = l.local_addr().unwrap().port();
         let st = Arc::new(Mutex::new(State {
-            ns: ns.to_string(), rv: 100, objs: BTreeMap::new(), log: vec![], list_waiting: 0, list_open: false, lists_since_open: 0, lists_served: 0, list_fail_once: false, list_fails: 0,
+            ns: ns.to_string(), rv: 97, objs: BTreeMap::new(), log: vec![], list_waiting: 0, list_open: false, lists_since_open: 0, lists_served: 0, list_fail_once: false, list_fails: 0,
             gone_next: false, watch_gen: 0, watch_alive: false, watch_delivered: 0, cmd: None, cmds_done: 0, t0: Instant::now(), reqs: vec![],
         }));
         let st2 = st.clone();
@@ -183,6 +186,22 @@ impl Mock {
                 s.objs.insert(n.clone(), obj.clone());
                 let rv = s.rv;
                 s.log.push((rv, t, obj));
+                Ok(())
+            }
+            Step::Churn(n, o) => {
+                // the metadata flips between the old and the new version CHURN_UPDATES times; the last update is `o`
+                let mut s = self.st.lock().unwrap();
+                let ns = s.ns.clone();
+                let mut old = o.clone();
+                old["meta"] = json!(if o["meta"] == "m1" { "m2" } else { "m1" });
+                for j in 0..CHURN_UPDATES {
+                    s.rv += 1;
+                    let d = if (CHURN_UPDATES - 1 - j) % 2 == 0 { o } else { &old };
+                    let obj = game_server(&ns, n, d, s.rv);
+                    s.objs.insert(n.clone(), obj.clone());
+                    let rv = s.rv;
+                    s.log.push((rv, "MODIFIED", obj));
+                }
                 Ok(())
             }
             Step::Delete(n) => {
@@ -265,6 +284,7 @@ async fn chunk(s: &mut TcpStream, v: &Value) -> std::io::Result<()> {
 }
 
 const GONE: &str = "too old resource version";
+pub const CHURN_UPDATES: usize = 3000;
 
 async fn serve(mut s: TcpStream, st: Arc<Mutex<State>>) {
     loop {
